@@ -8,6 +8,9 @@ mod verif_kani_mask_span {
 
     //@@ span parser/src/earley/parser.rs mask_post :: if self.special_token_marker_token != INVALID_TOKEN { set.disallow_token(self.special_token_marker_token); } ::: set.allow_token(eos); }
 
+    //@@ span parser/src/earley/parser.rs cache_lookup :: @after fn compute_bias(&mut self, computer: &dyn BiasComputer, start: &[u8]) -> SimpleVob { let t0 = Instant::now(); ::: @before let limits = self.limits.clone();
+    //@@ span parser/src/earley/parser.rs cache_fill :: @after if eos != INVALID_TOKEN && start.is_empty() && self.lexer_allows_eos() { set.allow_token(eos); } ::: @before let d = t0.elapsed(); self.stats.compute_time_us += d.as_micros() as u64; self.perf_counters.compute_bias.record(d); set }
+
     const VOCAB: usize = 40;
 
     struct LexemeSpec {
@@ -110,6 +113,135 @@ mod verif_kani_mask_span {
             assert!(out.is_allowed(t) == (old.is_allowed(t) && t != marker));
         }
         assert!(!out.is_allowed(VOCAB as u32));
+    }
+
+    // ---- the mask cache of compute_bias: lookup and fill statements (real text) ----
+    #[derive(Clone, Copy, PartialEq)]
+    struct LexSt {
+        lexer_state: u32,
+        row_idx: u32,
+    }
+    struct BiasCache {
+        lexer_state: u32,
+        row_idx: u32,
+        has_pending_lexeme_bytes: bool,
+        mask: SimpleVob,
+    }
+    struct ShimStats {
+        compute_time_us: u64,
+    }
+    struct ShimCounter;
+    impl ShimCounter {
+        fn record(&self, _d: ShimDur) {}
+    }
+    struct ShimPerf {
+        compute_bias: ShimCounter,
+    }
+    #[derive(Clone, Copy)]
+    struct ShimDur;
+    impl ShimDur {
+        fn as_micros(&self) -> u128 {
+            0
+        }
+    }
+    struct Instant;
+    impl Instant {
+        fn now() -> Instant {
+            Instant
+        }
+        fn elapsed(&self) -> ShimDur {
+            ShimDur
+        }
+    }
+    struct CacheState {
+        cur: LexSt,
+        pending: bool,
+        bias_cache: Option<BiasCache>,
+        stats: ShimStats,
+        perf_counters: ShimPerf,
+    }
+    impl CacheState {
+        fn lexer_state(&self) -> LexSt {
+            self.cur
+        }
+        fn has_pending_lexeme_bytes(&self) -> bool {
+            self.pending
+        }
+        /// Some(mask) = the cached mask was returned without recomputation
+        fn lookup(&mut self, start: &[u8]) -> Option<SimpleVob> {
+            let t0 = Instant::now();
+            /*@@paste cache_lookup s/return cache.mask.clone();/return Some(cache.mask.clone());/*/
+            None
+        }
+        fn fill(&mut self, start: &[u8], set: &SimpleVob) {
+            let t0 = Instant::now();
+            let _ = &t0;
+            /*@@paste cache_fill*/
+        }
+    }
+    fn any_cache_state(with_cache: bool) -> CacheState {
+        let mut m = SimpleVob::alloc_with_capacity(8, 9);
+        if kani::any() {
+            m.allow_token(3);
+        }
+        CacheState {
+            cur: LexSt { lexer_state: kani::any(), row_idx: kani::any() },
+            pending: kani::any(),
+            bias_cache: if with_cache {
+                Some(BiasCache { lexer_state: kani::any(), row_idx: kani::any(), has_pending_lexeme_bytes: kani::any(), mask: m })
+            } else {
+                None
+            },
+            stats: ShimStats { compute_time_us: 0 },
+            perf_counters: ShimPerf { compute_bias: ShimCounter },
+        }
+    }
+
+    /// a cached mask is served only for an empty token prefix and only when all three key components match the current state
+    #[kani::proof]
+    #[kani::unwind(4)]
+    fn bias_cache_lookup_key() {
+        let with_cache: bool = kani::any();
+        let mut st = any_cache_state(with_cache);
+        let start_empty: bool = kani::any();
+        let sb = [b'x'];
+        let start: &[u8] = if start_empty { &[] } else { &sb };
+        let key_eq = match &st.bias_cache {
+            Some(c) => c.lexer_state == st.cur.lexer_state && c.row_idx == st.cur.row_idx && c.has_pending_lexeme_bytes == st.pending,
+            None => false,
+        };
+        let hit = st.lookup(start);
+        kani::cover!(hit.is_some());
+        kani::cover!(hit.is_none() && with_cache && start_empty);
+        assert!(hit.is_some() == (start_empty && key_eq));
+        if let (Some(h), Some(c)) = (&hit, &st.bias_cache) {
+            assert!(h.is_allowed(3) == c.mask.is_allowed(3)); // and it is the cached mask itself
+        }
+    }
+
+    /// the cache is (re)filled only for an empty token prefix, with the current key and the mask just computed
+    #[kani::proof]
+    #[kani::unwind(4)]
+    fn bias_cache_fill_key() {
+        let with_cache: bool = kani::any();
+        let mut st = any_cache_state(with_cache);
+        let start_empty: bool = kani::any();
+        let sb = [b'x'];
+        let start: &[u8] = if start_empty { &[] } else { &sb };
+        let mut set = SimpleVob::alloc_with_capacity(8, 9);
+        let bit: bool = kani::any();
+        if bit {
+            set.allow_token(5);
+        }
+        let old_key = st.bias_cache.as_ref().map(|c| (c.lexer_state, c.row_idx, c.has_pending_lexeme_bytes));
+        st.fill(start, &set);
+        let new_key = st.bias_cache.as_ref().map(|c| (c.lexer_state, c.row_idx, c.has_pending_lexeme_bytes));
+        if start_empty {
+            assert!(new_key == Some((st.cur.lexer_state, st.cur.row_idx, st.pending)));
+            assert!(st.bias_cache.as_ref().unwrap().mask.is_allowed(5) == bit);
+        } else {
+            assert!(new_key == old_key); // a mask computed under a token prefix never enters the cache
+        }
     }
 
     // vacuity guard (must FAIL)
